@@ -190,11 +190,27 @@ type chunked struct {
 	errAt   int // the k-th Read call returns err (-1 none)
 	err     error
 	calls   int
+	// fault at a byte offset: after exactly errPos bytes were delivered the stream fails
+	// (errPos < 0: none). errWith: the error comes together with the last bytes before the
+	// offset (n > 0, err != nil) when there are any; oneShot: the error is reported once and
+	// the stream then continues (a transient fault), otherwise it persists.
+	errPos  int
+	errWith bool
+	oneShot bool
+	fired   bool
+}
+
+func newChunked(d []byte, size int) *chunked {
+	return &chunked{data: d, size: size, shortAt: -1, errAt: -1, errPos: -1}
 }
 
 func (c *chunked) Read(p []byte) (int, error) {
 	c.calls++
 	if c.errAt >= 0 && c.calls-1 == c.errAt {
+		return 0, c.err
+	}
+	if c.errPos >= 0 && c.pos == c.errPos && !(c.oneShot && c.fired) && len(p) > 0 {
+		c.fired = true
 		return 0, c.err
 	}
 	if c.pos >= len(c.data) {
@@ -203,6 +219,15 @@ func (c *chunked) Read(p []byte) (int, error) {
 	n := len(p)
 	if c.size > 0 && n > c.size {
 		n = c.size
+	}
+	if c.errPos > c.pos && n >= c.errPos-c.pos && !(c.oneShot && c.fired) {
+		n = c.errPos - c.pos
+		if c.errWith && n > 0 {
+			copy(p, c.data[c.pos:c.pos+n])
+			c.pos += n
+			c.fired = true
+			return n, c.err
+		}
 	}
 	if c.shortAt >= 0 && c.pos == c.shortAt && n > 1 {
 		n = 1
@@ -415,7 +440,7 @@ func main() {
 					for _, cs := range chunkSizes {
 						var o outcome
 						if w.Guard(fmt.Sprintf("reader(%s) chunked", s.kind), func() {
-							o = run(s.kind, cfg, &chunked{data: d, size: cs, shortAt: -1, errAt: -1}, len(d))
+							o = run(s.kind, cfg, newChunked(d, cs), len(d))
 						}) {
 							continue
 						}
@@ -437,7 +462,7 @@ func main() {
 				// every constant read size, and one short read at every offset
 				for _, cs := range []int{1, 2, 3, 5, 7, 16, 4093} {
 					var o outcome
-					w.Guard("reader chunked", func() { o = run(s.kind, 0, &chunked{data: d, size: cs, shortAt: -1, errAt: -1}, len(d)) })
+					w.Guard("reader chunked", func() { o = run(s.kind, 0, newChunked(d, cs), len(d)) })
 					if o.sig() != base.sig() {
 						w.Violation("c15|result-depends-on-read-sizes|"+s.kind, fmt.Sprintf("read size %d: %.300s vs %.300s", cs, o.sig(), base.sig()))
 					}
@@ -445,7 +470,7 @@ func main() {
 				}
 				for at := 0; at < len(d); at++ {
 					var o outcome
-					w.Guard("reader short read", func() { o = run(s.kind, 0, &chunked{data: d, shortAt: at, errAt: -1}, len(d)) })
+					w.Guard("reader short read", func() { o = run(s.kind, 0, func() *chunked { c := newChunked(d, 0); c.shortAt = at; return c }(), len(d)) })
 					if o.sig() != base.sig() {
 						w.Violation("c15|result-depends-on-read-sizes|"+s.kind, fmt.Sprintf("one short read at offset %d: %.300s vs %.300s", at, o.sig(), base.sig()))
 					}
@@ -453,13 +478,13 @@ func main() {
 				}
 				// one injected error at every read call of two chunkings
 				for _, cs := range []int{16, 64} {
-					probe := &chunked{data: d, size: cs, shortAt: -1, errAt: -1}
+					probe := newChunked(d, cs)
 					w.Guard("reader", func() { run(s.kind, 0, probe, len(d)) })
 					for k := 0; k < probe.calls; k++ {
 						for _, e := range []error{errInjected, timeoutErr{}} {
 							var o outcome
 							if w.Guard("reader with injected error", func() {
-								o = run(s.kind, 0, &chunked{data: d, size: cs, shortAt: -1, errAt: k, err: e}, len(d))
+								o = run(s.kind, 0, func() *chunked { c := newChunked(d, cs); c.errAt = k; c.err = e; return c }(), len(d))
 							}) {
 								continue
 							}
@@ -477,6 +502,45 @@ func main() {
 									w.Violation("c15|packet-before-injected-error-differs|"+s.kind, fmt.Sprintf("packet %d", j))
 									break
 								}
+							}
+						}
+					}
+				}
+				// one fault after exactly `at` delivered bytes, for every byte offset: reported by a
+				// call of its own or together with the last bytes, persistent or transient, with
+				// whole and 1-byte reads
+				for at := 0; at < len(d); at++ {
+					for style := 0; style < 8; style++ {
+						cs := 0
+						if style&4 != 0 {
+							cs = 1
+						}
+						mk := func() *chunked {
+							c := newChunked(d, cs)
+							c.errPos, c.err, c.errWith, c.oneShot = at, errInjected, style&1 != 0, style&2 != 0
+							return c
+						}
+						var o outcome
+						src := mk()
+						if w.Guard("reader with a fault at a byte offset", func() { o = run(s.kind, 0, src, len(d)) }) {
+							continue
+						}
+						w.Count("injected_errors", 1)
+						if !src.fired {
+							continue // the reader never asked for the byte at this offset
+						}
+						if o.err == "" {
+							w.Violation("c15|injected-error-swallowed|"+s.kind, fmt.Sprintf("a read error after exactly %d of %d bytes (with the data: %v, transient: %v, read size %d) never surfaced", at, len(d), style&1 != 0, style&2 != 0, cs))
+							continue
+						}
+						if len(o.pkts) > len(base.pkts) {
+							w.Violation("c15|packets-after-injected-error|"+s.kind, "more packets than the fault-free run")
+							continue
+						}
+						for j := range o.pkts {
+							if o.pkts[j] != base.pkts[j] {
+								w.Violation("c15|packet-before-injected-error-differs|"+s.kind, fmt.Sprintf("packet %d (fault after %d bytes)", j, at))
+								break
 							}
 						}
 					}
